@@ -148,8 +148,12 @@ func (r *run) codec() {
 // ---- signed blobs -------------------------------------------------------------
 
 func (r *run) blobCase(k int, blob []byte, hexmode bool, mu *Mut) {
-	s := signer.New(hmacKeys[k])
-	c := &Case{Stream: "signer", Op: "check", Fam: "blob", Key: k, Tok: hx16(blob), Mut: mu}
+	r.blobCaseOn(signer.New(hmacKeys[k]), "signer", k, blob, hexmode, mu)
+}
+
+// blobCaseOn: the check made on a given (possibly long-lived) Signer object.
+func (r *run) blobCaseOn(s *signer.Signer, stream string, k int, blob []byte, hexmode bool, mu *Mut) bool {
+	c := &Case{Stream: stream, Op: "check", Fam: "blob", Key: k, Tok: hx16(blob), Mut: mu}
 	var ok bool
 	var out []byte
 	if hexmode {
@@ -165,11 +169,15 @@ func (r *run) blobCase(k int, blob []byte, hexmode bool, mu *Mut) {
 		c.Obs.Out = hx16(out)
 	}
 	r.emit(c)
+	return ok
 }
 
 func (r *run) signCase(k int, data []byte, hexmode bool) []byte {
-	s := signer.New(hmacKeys[k])
-	c := &Case{Stream: "signer", Op: "sign", Key: k, Data: hx16(data), Macs: []Mac{macEntry(k, data)}}
+	return r.signCaseOn(signer.New(hmacKeys[k]), "signer", k, data, hexmode)
+}
+
+func (r *run) signCaseOn(s *signer.Signer, stream string, k int, data []byte, hexmode bool) []byte {
+	c := &Case{Stream: stream, Op: "sign", Key: k, Data: hx16(data), Macs: []Mac{macEntry(k, data)}}
 	var tok []byte
 	if hexmode {
 		c.Op = "signhex"
@@ -255,7 +263,13 @@ func leTime(ns int64) []byte {
 func (r *run) sessCheckCase(k int, maxttl, now int64, tok []byte, mu *Mut) {
 	ss := signer.NewSessions(hmacKeys[k], time.Duration(maxttl))
 	ss.TimeFunc = at(now)
-	c := &Case{Stream: "session", Op: "sesscheck", Fam: "session", Key: k, Now: z(now), MaxTTL: z(maxttl),
+	r.sessCheckCaseOn(ss, "session", k, maxttl, now, tok, mu)
+}
+
+// sessCheckCaseOn: the check made on a given Sessions object whose clock
+// reads now.
+func (r *run) sessCheckCaseOn(ss *signer.Sessions, stream string, k int, maxttl, now int64, tok []byte, mu *Mut) bool {
+	c := &Case{Stream: stream, Op: "sesscheck", Fam: "session", Key: k, Now: z(now), MaxTTL: z(maxttl),
 		Tok: hx16(tok), Macs: macsForHex(k, tok), Mut: mu}
 	var out []byte
 	var left time.Duration
@@ -267,6 +281,7 @@ func (r *run) sessCheckCase(k int, maxttl, now int64, tok []byte, mu *Mut) {
 		c.Obs.Left = z(int64(left))
 	}
 	r.emit(c)
+	return ok
 }
 
 func (r *run) sessions() {
@@ -347,12 +362,17 @@ func (r *run) sessions() {
 func (r *run) tsCheckCase(k int, window, now int64, tok []byte, mu *Mut) {
 	ts := signer.NewTimeSigner(hmacKeys[k], time.Duration(window))
 	ts.TimeFunc = at(now)
-	c := &Case{Stream: "timetoken", Op: "tscheck", Fam: "timetoken", Key: k, Window: z(window), Now: z(now),
+	r.tsCheckCaseOn(ts, "timetoken", k, window, now, tok, mu)
+}
+
+func (r *run) tsCheckCaseOn(ts *signer.TimeSigner, stream string, k int, window, now int64, tok []byte, mu *Mut) bool {
+	c := &Case{Stream: stream, Op: "tscheck", Fam: "timetoken", Key: k, Window: z(window), Now: z(now),
 		Tok: hx16(tok), Macs: macsForHex(k, tok), Mut: mu}
 	var ok bool
 	c.Obs.Crash = guard(func() { ok = ts.Check(string(tok)) })
 	c.Obs.Ok = ok
 	r.emit(c)
+	return ok
 }
 
 func (r *run) timeTokens() {
@@ -360,7 +380,7 @@ func (r *run) timeTokens() {
 	const sec = int64(time.Second)
 	base := int64(1700000000) * sec
 	type tc struct{ window, t0 int64 }
-	cs := []tc{{30 * sec, base}, {-30 * sec, base + 999}, {1, base}, {0, base}, {2, 0}, {5 * sec, -base}, {3600 * sec, base + 5}}
+	cs := []tc{{30 * sec, base}, {-30 * sec, base + 999}, {1, base}, {0, base}, {2, 0}, {5 * sec, -base}, {3600 * sec, base + 5}, {-1, base + 7}}
 	for i := 0; i < 2*r.scale; i++ {
 		cs = append(cs, tc{int64(r.rng.Intn(1000000)) + 1, base + int64(r.rng.U64()%uint64(1e17))})
 	}
@@ -386,7 +406,7 @@ func (r *run) timeTokens() {
 			continue
 		}
 		r.tsCheckCase(1+(k%(len(hmacKeys)-1)), s.window, s.t0, tok, &Mut{Tok: tokid, Class: "otherkey"})
-		if ci < 2 || ci >= 7 {
+		if ci < 2 || ci >= 8 {
 			tsv := signer.NewTimeSigner(hmacKeys[k], time.Duration(s.window))
 			tsv.TimeFunc = at(s.t0)
 			r.sweep(&sweepSpec{fam: "timetoken", tokid: tokid, issued: tok, sample: 3,
@@ -441,11 +461,15 @@ func rsaTimeErr(err error) int {
 }
 
 func (r *run) rsaTimeCase(ki int, window, now int64, b *signer.SignedRSABlock, mu *Mut) int {
-	pub := &rsaPri[ki].PublicKey
-	s := signer.NewRSATimeSigner(pub, time.Duration(window))
+	s := signer.NewRSATimeSigner(&rsaPri[ki].PublicKey, time.Duration(window))
 	s.TimeFunc = at(now)
+	return r.rsaTimeCaseOn(s, "rsatime", ki, window, now, b, mu)
+}
+
+func (r *run) rsaTimeCaseOn(s *signer.RSATimeSigner, stream string, ki int, window, now int64, b *signer.SignedRSABlock, mu *Mut) int {
+	pub := &rsaPri[ki].PublicKey
 	hd := sha256.Sum256(b.Data)
-	c := &Case{Stream: "rsatime", Op: "rsatime", Fam: "rsatime", Key: ki + 1, Window: z(window), Now: z(now),
+	c := &Case{Stream: stream, Op: "rsatime", Fam: "rsatime", Key: ki + 1, Window: z(window), Now: z(now),
 		Data: hx16(b.Data), Hash: hx16(b.Hash), HashD: hx16(hd[:]), Mut: mu,
 		SigOK: rsa.VerifyPKCS1v15(pub, crypto.SHA256, b.Hash, b.Sig) == nil}
 	var err error
@@ -463,7 +487,7 @@ func (r *run) rsaTime() {
 	initRSA()
 	const sec = int64(time.Second)
 	base := int64(1700000000) * sec
-	for ci, s := range []struct{ window, t0 int64 }{{30 * sec, base}, {-7 * sec, base + 3}, {1, 5}, {0, base}} {
+	for ci, s := range []struct{ window, t0 int64 }{{30 * sec, base}, {-7 * sec, base + 3}, {1, 5}, {0, base}, {-1, base + 9}} {
 		ki := ci % len(rsaPri)
 		blk, err := signer.VerifRSASignTime(rsaPri[ki], time.Unix(0, s.t0))
 		if err != nil {
